@@ -195,6 +195,16 @@ def run(c, index, tier):
     f2 = spec.build(cfg)
     _env(c, g)
     ok, r3 = U.sut(c, "fresh2.fit(B)", f2.fit, *argsB, **kwB)
+    if not ok:
+        # the same data, parameters and global seed a moment ago gave a model
+        _viol(
+            c,
+            seen,
+            spec,
+            "same-seed-different-model",
+            ("second-fit-raised", type(r3).__name__),
+            "two fresh fits on the same data with the same numpy global seed: the first one returned, the second one raised %s (what differs is only what the simulator stands in for: OS entropy, uninitialised memory)" % U.short_exc(r3),
+        )
     if ok:
         _env(c, g)
         other = _observe(c, spec, f2, cfg, Xp)
